@@ -4,14 +4,17 @@
   The generated module is modelled as an AST (`Py/Module.lean`): import groups, then one `ClassDef` per class
   in the orderer's order.  Proved here: each class is declared exactly once and after every class it depends
   on; a property is printed with the optional wrapper exactly when it is neither required nor defaulted;
-  class keywords are printed exactly when they differ from the constructor default.  That executing the
-  text rebuilds an equal class is compared on the real code (exec + `==`), not proved here.
+  class keywords are printed exactly when they differ from the constructor default; executing a class statement
+  in a namespace that holds the classes it refers to rebuilds the class itself, and executing a module top to
+  bottom rebuilds every class (`C02_class_statement_rebuilds`, `C02_module_executes`, over the evaluator model
+  `Py/EvalTree.lean` + `Py/EvalClass.lean`, which is tied to the real `exec` differentially).
 -/
 import StathamModel.Py.Module
 import StathamModel.Props.C11
 import StathamModel.Props.C18
 import StathamModel.Lemmas.ReprNames
 import StathamModel.Lemmas.AnnotNames
+import StathamModel.Lemmas.EvalClass
 import StathamModel.Tie
 namespace Statham.C02
 open Statham
@@ -265,5 +268,51 @@ example : (match emitModule [root] with
     | .ok m => (m.classes.map fun c => c.props.map fun p => (p.attr, p.ann.show)) ==
         [[("id", "str")], [("child", "Maybe[Child]"), ("tags", "Maybe[List[str]]")]]
     | .error _ => false) = true := by decide +kernel
+
+/-! ### executing the generated text rebuilds the classes -/
+
+open Statham.PyEval in
+/-- **a class statement, executed, is the class**: for a model class in the form its statement determines (`ClassOK`:
+    only what `ObjectMeta` takes, container keywords consistent with their flags, bound properties) whose sub-elements are
+    well formed for the namespace (every class they refer to is there under its printed name) -/
+theorem C02_class_statement_rebuilds (env : String → Option Elem) (n : String) (kw : Kw) (items : List Elem)
+    (addI cont : Option Elem) (props pats : List (Key × Elem)) (addP pn : Option Elem) (deps : List (Key × Elem)) (els : List Elem)
+    (ok : ClassOK ⟨kw, items, addI, cont, props, pats, addP, pn, deps, els⟩)
+    (hi : WFL env items) (ha : WFO env addI) (hc : WFO env cont) (hp : WFK env props) (hpt : WFK env pats)
+    (hap : WFO env addP) (hpn : WFO env pn) (hd : WFK env deps) (he : WFL env els) :
+    evalClassDef env (classDef (.mk (.object n) kw items addI cont props pats addP pn deps els)) =
+      some (.mk (.object n) kw items addI cont props pats addP pn deps els) :=
+  evalClassDef_classDef env n kw items addI cont props pats addP pn deps els ok hi ha hc hp hpt hap hpn hd he
+
+open Statham.PyEval in
+/-- **a module, executed top to bottom, rebuilds every class**: if each class statement is executable in the namespace the
+    earlier statements leave behind (`ChainOK`; that the classes a statement refers to *are* earlier is
+    `C02_dependencies_first`), the execution yields exactly the classes the statements were printed from, in order -/
+theorem C02_module_executes (cs : List Elem) (env : String → Option Elem) (h : ChainOK env cs) :
+    execClasses env (cs.map classDef) = some (cs.map fun c => (objName c.cls, c)) :=
+  execClasses_ok cs env h
+
+namespace Sample
+open Statham.PyEval
+
+def tag : Elem :=
+  .mk (.object "Tag") { hasProps := true, description := some "A tag." } [] none none
+    [({ name := "label", required := true, source := some "label" }, Elem.leaf .string { maxLength := some (.int 8) })] [] none none [] []
+def post : Elem :=
+  .mk (.object "Post") { hasProps := true, addPropsB := false, hasPatProps := true, required := some ["tags"] } [] none none
+    [({ name := "tags", source := some "tags" },
+       .mk .array { itemsKind := .single, default := some (.arr []) } [tag] none none [] [] none none [] []),
+     ({ name := "class_", required := true, source := some "class" }, Elem.compose .anyOf [tag, Elem.leaf .null])]
+    [({ name := "^x-" }, Elem.leaf .integer)] none none [] []
+
+/-- the hypotheses are met by a two-class module in which the second class refers to the first from two places -/
+example : ChainOK (fun _ => none) [tag, post] := by
+  simp [ChainOK, DeclOK, WF, WFL, WFO, WFK, tag, post, NodeOK, Elem.leaf, Elem.compose, objName, Elem.cls]
+  refine ⟨?_, ?_, ?_⟩ <;> constructor <;> simp [BoundKey, PatKey, DepOK, Key.src]
+
+/-- the executable form the driver reports, evaluated in the kernel on the same module -/
+example : execBack [post] = true := by decide +kernel
+
+end Sample
 
 end Statham.C02
